@@ -541,6 +541,8 @@ pub enum COp {
     PutV(String, u64, Vec<u8>),
     Delete(String),
     PrepareCommit,
+    /// put_batch of (key, version, value) entries on distinct keys
+    PutBatch(Vec<(String, u64, Vec<u8>)>),
 }
 
 fn cloud_alphabet(tier: Tier) -> Vec<COp> {
@@ -555,6 +557,13 @@ fn cloud_alphabet(tier: Tier) -> Vec<COp> {
             for v in &vals {
                 ops.push(COp::PutV(k.to_string(), ver, v.clone()));
             }
+        }
+    }
+    // batches over the two keys in both orders (the cloud store stages a batch entry by entry)
+    for va in 0..3u64 {
+        for vb in 0..3u64 {
+            ops.push(COp::PutBatch(vec![(KEYS[0].to_string(), va, b"x".to_vec()), (KEYS[1].to_string(), vb, b"y".to_vec())]));
+            ops.push(COp::PutBatch(vec![(KEYS[1].to_string(), vb, b"y".to_vec()), (KEYS[0].to_string(), va, b"x".to_vec())]));
         }
     }
     ops
@@ -665,7 +674,9 @@ fn cloud_commit_crash_points(hist: &[COp]) -> (u64, Vec<(String, String)>) {
                 COp::Delete(k) => {
                     let _ = cloud.delete(k);
                 }
-                _ => {}
+                COp::PutBatch(es) => {
+                    let _ = cloud.put_batch(es.iter().map(|(k, ver, v)| KVV(k.clone(), (*ver, v.clone()))).collect());
+                }
             }
         }
         let before = dump_local(&cloud);
@@ -718,6 +729,8 @@ fn cloud_replay(hist: &[COp], op: &COp) -> CloudOut {
                     let (_pts, cv) = cloud_commit_crash_points(hist);
                     vios.extend(cv);
                 }
+                // what the transaction reads for every key right before it ends ...
+                let reads: Vec<(String, Option<(u64, Vec<u8>)>)> = KEYS.iter().map(|k| (k.to_string(), cloud.get(k).unwrap())).collect();
                 let muts = cloud.prepare();
                 let local_mid: Dump = dump_store(&LocalView(&cloud));
                 if check && local_mid != local_before {
@@ -749,6 +762,17 @@ fn cloud_replay(hist: &[COp], op: &COp) -> CloudOut {
                             }
                         } else {
                             vios.push(("C16:cloud:key-vanished".into(), format!("key {}", k)));
+                        }
+                    }
+                    // ... is what the local store holds once the transaction is committed
+                    if r.is_ok() {
+                        for (k, rd) in &reads {
+                            if local_after.get(k) != rd.as_ref() {
+                                vios.push((
+                                    "C16:cloud:committed-differs-from-last-read-in-transaction".into(),
+                                    format!("key {}: the transaction read {:?} before prepare, the local store holds {:?} after commit", k, rd, local_after.get(k)),
+                                ));
+                            }
                         }
                     }
                     // the mutations must carry every accepted write of the transaction
@@ -828,6 +852,46 @@ fn cloud_replay(hist: &[COp], op: &COp) -> CloudOut {
                     if got != pre_read {
                         vios.push(("C16:cloud:refused-write-changed-reads".into(), format!("{:?} -> {:?}", pre_read, got)));
                     }
+                }
+                let local_now: Dump = dump_store(&LocalView(&cloud));
+                if check && local_now != local_before {
+                    vios.push(("C16:cloud:local-changed-before-commit".into(), format!("op {:?} changed the local store", o)));
+                }
+            }
+            COp::PutBatch(es) => {
+                assert!(in_tx);
+                let r = cloud.put_batch(es.iter().map(|(k, ver, v)| KVV(k.clone(), (*ver, v.clone()))).collect());
+                if r.is_ok() {
+                    // every entry was accepted: each key reads back as written (or as committed, for
+                    // an exact replay of the committed version and content)
+                    for (k, ver, v) in es {
+                        let got = cloud.get(k).unwrap();
+                        // an exact replay of the committed version and content is accepted as a no-op
+                        // (whatever the transaction staged for the key before stays)
+                        if local_before.get(k) == Some(&(*ver, v.clone())) {
+                            continue;
+                        }
+                        if got == Some((*ver, v.clone())) {
+                            txw.insert(k.clone(), (*ver, v.clone()));
+                            if check {
+                                if let Some((lv, _)) = local_before.get(k) {
+                                    if ver < lv {
+                                        vios.push(("C16:cloud:staged-version-below-committed".into(), format!("key {} staged {} < committed {} (batch)", k, ver, lv)));
+                                    }
+                                }
+                            }
+                        } else if check {
+                            vios.push(("C16:cloud:read-your-writes".into(), format!("batch entry ({}, {}, {:?}) accepted but get returns {:?}", k, ver, v, got)));
+                        }
+                        if check && cloud.get_version(k).unwrap() != got.as_ref().map(|x| x.0) {
+                            vios.push(("C16:cloud:get-version-differs-from-get".into(), format!("key {} after batch", k)));
+                        }
+                    }
+                } else if check {
+                    // the statement does not make a cloud batch atomic (it is staged entry by entry);
+                    // what it does demand - reads, reported mutations and the committed state agree -
+                    // is checked when the transaction ends
+                    refused = true;
                 }
                 let local_now: Dump = dump_store(&LocalView(&cloud));
                 if check && local_now != local_before {
